@@ -83,4 +83,39 @@ K_REENT = [H("k_c08_reentrant_defers_" + sh, "sources",
              "retain_mut/contains 6", unwindset=[("retain_mut", 6), ("contains", 6)], timeout_q=600)
            for sh in ["f1p0", "f1p1", "f0"]]
 
-PROPS["DEV"] = dict(level="proof", k=K_REENT, m=[])
+LIST_FNS = ["SourceList::get", "SourceList::get_mut", "SourceList::vacant_entry", "TokenInner::increment_version"]
+K_LIST = [H("k_c01_list_get", "list", "get/get_mut on an arbitrary 3-slot list (symbolic generations and occupancy) "
+            "with an arbitrary 64-bit token: Ok <=> id < len and generation equal; returns slot[id]",
+            LIST_FNS[:2], "3 slots, all 2^64 tokens, Data=()")] + \
+         [H("k_c06_list_vacant_" + sh, "list", "vacant_entry on a 2-slot list (occupancy %s, symbolic generations): "
+            "lowest vacant slot reused with generation+1 mod 2^16 or append at generation 0; other slots untouched; "
+            "old token of the reused slot dead, new token live" % sh,
+            LIST_FNS, "2 slots, all generations, concrete occupancy shape, unwind 4", timeout_q=600)
+          for sh in ["00", "01", "10", "11"]]
+
+K_SYS = {
+    "selftest": H("k_selftest_instant_layout", "sys", "self-test: Instant built from (secs,nanos) orders and subtracts "
+                  "as expected and Instant::now is the stubbed model clock", ["std::time::Instant (layout assumption)"],
+                  "all instants below 10^6 s", stub=True),
+    "cvt_mode": H("k_c02_cvt_mode", "sys", "cvt_mode over all Mode x supports_level", ["sys::cvt_mode"], "all 6 inputs"),
+    "cvt_interest": H("k_c02_cvt_interest", "sys", "cvt_interest: key = token, interest passed through",
+                      ["sys::cvt_interest"], "all tokens x 4 interests"),
+    "factory": H("k_c20_token_factory", "sys", "TokenFactory: first token is (id,gen,0); from any state token() returns "
+                 "the state and advances by exactly one; tokens belong to the source",
+                 ["TokenFactory::new", "TokenFactory::token", "TokenFactory::registration_token"],
+                 "all 2^64 start tokens, any sub id < 0xffff"),
+    "table": H("k_c02_poll_table", "sys", "Poll::register/reregister/unregister leave exactly (fd, interest, mode, key) / "
+               "nothing in the modelled kernel table; double register and reregister of an unregistered fd fail and "
+               "change nothing", ["Poll::register", "Poll::reregister", "Poll::unregister", "sys::cvt_mode", "sys::cvt_interest"],
+               "symbolic interest/mode/token, one fd, unwind 2"),
+    "reports": H("k_c02_poll_reports_ready_fd", "sys", "one registered fd with symbolic interest/mode/readiness: Poll::poll "
+                 "returns one event with the registered token and the readiness cut to the interest iff ready; a second "
+                 "poll re-reports only in Level mode", ["Poll::poll", "Poll::register"], "1 fd, unwind 3", stub=True),
+    "clamp": H("k_c12_timeout_clamp", "sys", "Poll::poll waits min(timeout, earliest deadline - now): zero for an expired "
+               "timer, user timeout unchanged without timers, until the deadline without timeout, forever only with "
+               "neither; zero timeout never blocks; timer event in the batch iff deadline reached",
+               ["Poll::poll", "TimerWheel::next_deadline", "TimerWheel::next_expired"],
+               "0-1 timer, symbolic now/deadline/timeout below 10^6 s with every nanosecond value, unwind 3", stub=True),
+}
+
+PROPS["DEV"] = dict(level="proof", k=K_LIST + list(K_SYS.values()), m=[])
